@@ -331,6 +331,10 @@ func floatGFormat(f px.Format, value float64) string {
 	// Go might strip both trailing zeroes and decimal point when using '%g'. The
 	// decimal point and trailing zeroes are restored here
 	totLen := len(str)
+	if strings.IndexByte(`+- `, str[0]) >= 0 {
+		// The sign is not a digit
+		totLen--
+	}
 	prc := f.Precision()
 	if prc < 0 && !f.IsAlt() {
 		prc = 6
